@@ -147,6 +147,50 @@ proof!(c05_rt_message_h1_l1, 12, { rt_message::<1, 0>(1) });
 proof!(c05_rt_message_h2_l2, 12, { rt_message::<2, 0>(2) });
 proof!(c05_rt_message_h3_l1, 12, { rt_message::<1, 1>(3) });
 
+/// encode only: the length prefix written for a Message frame equals `get_length()` and
+/// the payload bytes actually written (the full round trip with a header map present does
+/// not finish: std's HashMap under CBMC, see DESIGN)
+fn len_message<const L: usize>(which: u8) {
+    let m = sym_bytes::<L>();
+    let f = Frame::Message(MessagePayload { headers: headers_menu(which), message: m });
+    let glen = match f.get_length() {
+        Ok(l) => l,
+        Err(e) => {
+            core::mem::forget(e);
+            panic!("get_length failed")
+        }
+    };
+    let mut buf = BytesMut::new();
+    let mut codec = MessageCodec;
+    match codec.encode(f, &mut buf) {
+        Ok(()) => {}
+        Err(e) => {
+            core::mem::forget(e);
+            panic!("encoder refused a small frame")
+        }
+    }
+    let mut lenb = [0u8; 8];
+    lenb.copy_from_slice(&buf[..8]);
+    assert!(u64::from_be_bytes(lenb) == (buf.len() - HDR) as u64, "length prefix == payload bytes written");
+    assert!(glen == (buf.len() - HDR) as u64, "get_length == payload bytes written");
+    core::mem::forget(buf);
+}
+proof!(c05_len_message_h1_l1, 20, { len_message::<1>(1) });
+
+/// `get_length()` alone against the bincode layout of MessagePayload: option tag (1), for
+/// Some: map count (8) [no entries in this menu entry], then bytes length (8) + L.
+/// (Kept separate from the encoder: a wrong length makes the encoder's buffer grow while
+/// writing, which CBMC does not get through.)
+fn getlen_message<const L: usize>(which: u8, expect: u64) {
+    let m = sym_bytes::<L>();
+    let f = Frame::Message(MessagePayload { headers: headers_menu(which), message: m });
+    let r = f.get_length();
+    assert!(matches!(r, Ok(l) if l == expect), "get_length == size of the bincode encoding");
+    core::mem::forget((r, f));
+}
+proof!(c05_getlen_message_h0_l2, 20, { getlen_message::<2>(0, 1 + 8 + 2) });
+proof!(c05_getlen_message_h1_l2, 20, { getlen_message::<2>(1, 1 + 8 + 8 + 2) });
+
 // ---------------------------------------------------------------- Error / Ok
 fn rt_error<const L: usize, const E: usize>() {
     let code: u32 = kani::any();
